@@ -221,10 +221,7 @@ def run_case(ctx, desc):
         if not isinstance(ro, xr.DataArray) or list(ro.dims[len(ro.dims) - len(want):] if want else []) != want:
             ctx.violation("output-positions", f"{sig}: output dims {getattr(ro, 'dims', type(ro))}, declared trailing dims {want}")
             return
-        for d in want:
-            if d in ds.coords and (d not in ro.coords or not np.array_equal(ro.coords[d].values, ds.coords[d].values)):
-                ctx.violation("output-positions", f"{sig}: output lacks the grid coordinate of {d}")
-                return
+        # (coordinates of the outputs are not judged here: the statement fixes the dimensions only)
     if ctx.case_index % 4 == 0:
         pad_after_scenario(ctx, desc, g, ds, cm)
     # a mis-positioned input must be rejected
